@@ -16,7 +16,7 @@ Local Open Scope list_scope.
 
 Inductive rkind := KHeap | KFile | KFd | KDir.
 Inductive key := KV (s : string) | KP (i : nat) | KC (b : key) (f : string) | KD (b : key).
-Inductive vstat := VNull | VOther | VOwn (k : rkind) | VDead | VPar (i : nat) | VCell | VAli (of : key).   (* VAli: a copy of the pointer held in [of] *)
+Inductive vstat := VNull | VNeg | VOther | VOwn (k : rkind) | VDead | VPar (i : nat) | VCell | VAli (of : key).   (* VNull: 0 / NULL; VNeg: -1 (failed descriptor); VAli: a copy of the pointer held in [of] *)
 
 (** boolean equalities (fast under vm_compute) with their soundness *)
 Definition rkind_eqb (a b : rkind) : bool :=
@@ -31,7 +31,7 @@ Fixpoint key_eqb (a b : key) : bool :=
   end.
 Definition vstat_eqb (a b : vstat) : bool :=
   match a, b with
-  | VNull, VNull | VOther, VOther | VDead, VDead | VCell, VCell => true
+  | VNull, VNull | VNeg, VNeg | VOther, VOther | VDead, VDead | VCell, VCell => true
   | VOwn x, VOwn y => rkind_eqb x y
   | VPar i, VPar j => Nat.eqb i j
   | VAli x, VAli y => key_eqb x y
@@ -162,15 +162,15 @@ Definition seti (T : rtab) (s : rs) (k : key) (z : option Z) : rs :=
        sess := sess s; leaks := leaks s; bad := bad s |}
   else s.
 Definition add_bad (s : rs) (w : string) : rs :=
-  {| vars := vars s; ints := ints s; consumed := consumed s; outp := outp s; freed_cells := freed_cells s; sess := sess s; leaks := leaks s; bad := bad s ++ [w] |}.
+  {| vars := vars s; ints := ints s; consumed := consumed s; outp := outp s; freed_cells := freed_cells s; sess := sess s; leaks := leaks s; bad := if memb String.eqb w (bad s) then bad s else bad s ++ [w] |}.
 Definition add_leak (s : rs) (k : key) : rs :=
-  {| vars := vars s; ints := ints s; consumed := consumed s; outp := outp s; freed_cells := freed_cells s; sess := sess s; leaks := leaks s ++ [k]; bad := bad s |}.
+  {| vars := vars s; ints := ints s; consumed := consumed s; outp := outp s; freed_cells := freed_cells s; sess := sess s; leaks := if memb key_eqb k (leaks s) then leaks s else leaks s ++ [k]; bad := bad s |}.
 Definition add_consumed (s : rs) (i : nat) : rs :=
-  {| vars := vars s; ints := ints s; consumed := consumed s ++ [i]; outp := outp s; freed_cells := freed_cells s; sess := sess s; leaks := leaks s; bad := bad s |}.
+  {| vars := vars s; ints := ints s; consumed := if memb Nat.eqb i (consumed s) then consumed s else consumed s ++ [i]; outp := outp s; freed_cells := freed_cells s; sess := sess s; leaks := leaks s; bad := bad s |}.
 Definition add_outp (s : rs) (i : nat) : rs :=
-  {| vars := vars s; ints := ints s; consumed := consumed s; outp := outp s ++ [i]; freed_cells := freed_cells s; sess := sess s; leaks := leaks s; bad := bad s |}.
+  {| vars := vars s; ints := ints s; consumed := consumed s; outp := if memb Nat.eqb i (outp s) then outp s else outp s ++ [i]; freed_cells := freed_cells s; sess := sess s; leaks := leaks s; bad := bad s |}.
 Definition add_freed (s : rs) (k : key) : rs :=
-  {| vars := vars s; ints := ints s; consumed := consumed s; outp := outp s; freed_cells := freed_cells s ++ [k]; sess := sess s; leaks := leaks s; bad := bad s |}.
+  {| vars := vars s; ints := ints s; consumed := consumed s; outp := outp s; freed_cells := if memb key_eqb k (freed_cells s) then freed_cells s else freed_cells s ++ [k]; sess := sess s; leaks := leaks s; bad := bad s |}.
 Definition add_sess (s : rs) (d : Z) : rs :=
   {| vars := vars s; ints := ints s; consumed := consumed s; outp := outp s; freed_cells := freed_cells s; sess := (sess s + d)%Z; leaks := leaks s; bad := bad s |}.
 
@@ -206,7 +206,7 @@ Fixpoint cint (e : sexpr) : option Z :=
   | _ => None
   end.
 
-Inductive eres := EFresh (k : rkind) | EKey (k : key) | EInt (z : Z) | EUnk.
+Inductive eres := EFresh (k : rkind) (may_fail : bool) | EKey (k : key) | EInt (z : Z) | EUnk.
 
 Definition release (k : rkind) (what : string) (r : eres) (s : rs) : rs :=
   match r with
@@ -215,7 +215,8 @@ Definition release (k : rkind) (what : string) (r : eres) (s : rs) : rs :=
     match getv s x with
     | VAli _ => add_bad s (what ++ " through a chain of pointer copies")
     | VOwn k' => if rkind_eqb k k' then setv s x VDead else add_bad s ("release of the wrong kind by " ++ what)
-    | VNull => match k with KFile | KDir => add_bad s (what ++ " of the failure value") | _ => s end
+    | VNull => match k with KHeap => s | KFd => add_bad s (what ++ " of descriptor 0, which this code did not open") | _ => add_bad s (what ++ " of the failure value") end
+    | VNeg => match k with KFd => s | _ => add_bad s (what ++ " of the failure value") end
     | VPar i => setv (add_consumed s i) x VDead
     | VCell => setv (add_freed s x) x VDead
     | VDead => add_bad s ("double release by " ++ what)
@@ -232,11 +233,14 @@ Definition consume_arg (s : rs) (r : eres) : rs :=
   | _ => s
   end.
 
-Definition receive_out (realloc : bool) (s : rs) (a : sexpr) : rs :=
+Definition forget_value (T : rtab) (s : rs) (k : key) : rs :=
+  let s := seti T s k None in match getv s k with VNull | VNeg => setv s k VOther | _ => s end.
+Definition receive_out (T : rtab) (realloc : bool) (s : rs) (a : sexpr) : rs :=
   match a with
   | XAddr lv =>
     match lv_key lv with
     | Some x =>
+      let s := seti T s x None in
       match getv s x with
       | VOwn KHeap => if realloc then s else setv (add_leak s x) x (VOwn KHeap)
       | VPar _ | VCell => add_bad s "out-parameter result stored into something this code does not own"
@@ -251,18 +255,19 @@ Definition receive_out (realloc : bool) (s : rs) (a : sexpr) : rs :=
   end.
 
 Definition fresh_dropped (r : eres) (s : rs) : rs :=
-  match r with EFresh _ => add_leak s (KV "<acquired and dropped>") | _ => s end.
+  match r with EFresh _ _ => add_leak s (KV "<acquired and dropped>") | _ => s end.
 
 Section Sem.
   Variable T : rtab.
 
   Definition apply_call (f : string) (args : list sexpr) (rsl : list eres) (s : rs) : list (rs * eres) :=
     let s := fold_left (fun s r => fresh_dropped r s) (tl rsl) s in
+    let s := fold_left (fun s a => match a with XAddr lv => match lv_key lv with Some k => forget_value T s k | None => s end | _ => s end) args s in   (* the callee may write through &x *)
     match assoc String.eqb (t_rel T) f with
     | Some k => [(release k f (hd EUnk rsl) s, EUnk)]
     | None =>
     match assoc String.eqb (t_acq T) f with
-    | Some k => [(fresh_dropped (hd EUnk rsl) s, EFresh k)]
+    | Some k => [(fresh_dropped (hd EUnk rsl) s, EFresh k (match k with KHeap => t_heap_fails T | _ => true end))]
     | None =>
     let s := fresh_dropped (hd EUnk rsl) s in
     if str_in f (t_sopen T) then [(add_sess s 1, EUnk)]
@@ -270,16 +275,16 @@ Section Sem.
     else match assoc String.eqb (t_summ T) f with
     | Some sm =>
       let s1 := fold_left (fun s i => consume_arg s (nth i rsl EUnk)) (s_consume sm) s in
-      let s2 := fold_left (fun s i => receive_out (s_realloc sm) s (nth i args (XOther "missing argument"))) (s_out sm) s1 in
-      [(s2, match s_ret sm with Some k => EFresh k | None => EUnk end)]
+      let s2 := fold_left (fun s i => receive_out T (s_realloc sm) s (nth i args (XOther "missing argument"))) (s_out sm) s1 in
+      [(s2, match s_ret sm with Some k => EFresh k true | None => EUnk end)]      (* a library function may hand back NULL on its own error paths *)
     | None => if str_in f (t_neutral T) then [(s, EUnk)] else [(add_bad s ("call of the unclassified function " ++ f), EUnk)]
     end end end.
 
   (** assignment of an evaluated right-hand side to a tracked lvalue; an acquisition forks into success and failure *)
   Definition assign_key (x : key) (r : eres) (s : rs) : list rs :=
     match r with
-    | EFresh k => seti T (overwrite T s x (VOwn k)) x None
-                  :: (if match k with KHeap => t_heap_fails T | _ => true end then [seti T (overwrite T s x VNull) x None] else [])
+    | EFresh k mf => seti T (overwrite T s x (VOwn k)) x None
+                  :: (if mf then [seti T (overwrite T s x (match k with KFd => VNeg | _ => VNull end)) x None] else [])
     | EKey y =>
       let s1 := seti T s x (geti s y) in
       match getv s y with
@@ -294,7 +299,7 @@ Section Sem.
       | VCell => [overwrite T s1 x VOther]
       | v => [overwrite T s1 x v]
       end
-    | EInt z => [seti T (overwrite T s x (if (z =? 0)%Z || (z =? -1)%Z then VNull else VOther)) x (Some z)]
+    | EInt z => [seti T (overwrite T s x (if (z =? 0)%Z then VNull else if (z =? -1)%Z then VNeg else VOther)) x (Some z)]
     | EUnk => [seti T (overwrite T s x VOther) x None]
     end.
 
@@ -339,39 +344,26 @@ Section Sem.
 
   Definition getr (s : rs) (k : key) : vstat := getv s (resolve s k).
   (** truth of a value; [None] = not determined by the tracked state (both branches are explored) *)
-  Definition failed (s : rs) (r : eres) : option bool :=   (* "holds the failure value (NULL / -1)" *)
+  Definition known_int (s : rs) (r : eres) : option Z :=
     match r with
-    | EKey k => match getr s k with
-                | VOwn _ => Some false
-                | VNull => Some true
-                | _ => match geti s k with Some z => Some ((z =? 0)%Z || (z =? -1)%Z) | None => None end
-                end
-    | EInt z => Some ((z =? 0)%Z || (z =? -1)%Z)
+    | EInt z => Some z
+    | EKey k => match getr s k with VNull => Some 0%Z | VNeg => Some (-1)%Z | _ => geti s k end
     | _ => None
     end.
-  Definition known_int (s : rs) (r : eres) : option Z :=
-    match r with EInt z => Some z | EKey k => geti s k | _ => None end.
-  Definition is_failure_const (r : eres) : bool := match r with EInt z => (z =? 0)%Z || (z =? -1)%Z | _ => false end.
-
+  Definition owned_kind (s : rs) (r : eres) : option rkind := match r with EKey k => match getr s k with VOwn kd => Some kd | _ => None end | _ => None end.
+  (** an owned pointer is not NULL and not -1; an owned descriptor is not -1 *)
+  Definition differs_from (kd : rkind) (z : Z) : bool := match kd with KFd => (z =? -1)%Z | _ => (z =? 0)%Z || (z =? -1)%Z end.
   Definition cmp_eq (s : rs) (a b : eres) : option bool :=
     match known_int s a, known_int s b with
     | Some x, Some y => Some (x =? y)%Z
-    | _, _ => if is_failure_const b then
-                match a with EKey k => match getr s k with VOwn _ => Some false | VNull => Some true | _ => None end | _ => None end
-              else if is_failure_const a then
-                match b with EKey k => match getr s k with VOwn _ => Some false | VNull => Some true | _ => None end | _ => None end
-              else None
+    | Some x, None => match owned_kind s b with Some kd => if differs_from kd x then Some false else None | None => None end
+    | None, Some y => match owned_kind s a with Some kd => if differs_from kd y then Some false else None | None => None end
+    | None, None => None
     end.
   Definition truth (s : rs) (r : eres) : option bool :=
-    match r with
-    | EInt z => Some (negb (z =? 0)%Z)
-    | EKey k => match getr s k with
-                | VOwn KFd => None
-                | VOwn _ => Some true
-                | VNull => match geti s k with Some z => Some (negb (z =? 0)%Z) | None => None end
-                | _ => option_map (fun z => negb (z =? 0)%Z) (geti s k)
-                end
-    | _ => None
+    match known_int s r with
+    | Some z => Some (negb (z =? 0)%Z)
+    | None => match owned_kind s r with Some KFd => None | Some _ => Some true | None => None end
     end.
 
   Definition o_and (a b : option bool) : option bool :=
@@ -396,14 +388,9 @@ Section Sem.
                  else if String.eqb op "!=" then option_map negb (cmp_eq s3 ra rb)
                  else match known_int s3 ra, known_int s3 rb with
                       | Some x, Some y => Some (if String.eqb op "<" then (x <? y)%Z else (x >=? y)%Z)
-                      | _, _ => match rb with
-                                | EInt 0%Z => match ra with
-                                              | EKey k => match getr s3 k with
-                                                          | VOwn _ => Some (negb (String.eqb op "<"))
-                                                          | VNull => Some (String.eqb op "<")
-                                                          | _ => None end
-                                              | _ => None end
-                                | _ => None end
+                      | _, _ => match rb, owned_kind s3 ra with
+                                | EInt 0%Z, Some _ => Some (negb (String.eqb op "<"))       (* an owned descriptor / pointer is not below zero *)
+                                | _, _ => None end
                       end)) (eval b s1)) (eval a s)
       else map (fun '(s1, r) => (fresh_dropped r s1, truth s1 r)) (eval c s)
     | XCast a => cond a s
@@ -457,11 +444,11 @@ Section Sem.
                       match getv s1 y with
                       | VOwn _ => [ONorm (add_outp (setv s1 y VOther) i)]
                       | _ => [ONorm s1] end
-          | EFresh _ => [ONorm (add_outp s1 i)]
+          | EFresh _ _ => [ONorm (add_outp s1 i)]
           | _ => [ONorm s1]
           end
         | Some x => map ONorm (assign_key x rr s1)
-        | None => map (fun '(s2, _) => ONorm (match rr with EFresh _ => add_bad s2 "acquired resource stored into an untracked lvalue" | _ => s2 end)) (eval l s1)
+        | None => map (fun '(s2, _) => ONorm (match rr with EFresh _ _ => add_bad s2 "acquired resource stored into an untracked lvalue" | _ => s2 end)) (eval l s1)
         end) (eval r s)
     | SIf c t e =>
       dedup outc_eqb (flat_map (fun '(s1, b) => (if may_true b then seq t s1 else []) ++ (if may_false b then seq e s1 else [])) (cond c s))
@@ -471,12 +458,13 @@ Section Sem.
     | SReturn (Some e) =>
       map (fun '(s1, r) =>
         match r with
-        | EFresh k => ORet s1 (VOwn k)
+        | EFresh k _ => ORet s1 (VOwn k)
         | EKey y0 => let y := resolve s1 y0 in
                     match getv s1 y with
                     | VOwn k => ORet (setv s1 y VOther) (VOwn k)
                     | VPar i => ORet s1 (VPar i)
                     | VNull => ORet s1 VNull
+                    | VNeg => ORet s1 VNeg
                     | _ => ORet s1 VOther end
         | EInt z => ORet s1 (if (z =? 0)%Z then VNull else VOther)
         | EUnk => ORet s1 VOther
